@@ -94,12 +94,13 @@ func main() {
 	sort.Slice(pkgs, func(i, j int) bool { return pkgs[i].PkgPath < pkgs[j].PkgPath })
 	for _, p := range pkgs {
 		st.Packages = append(st.Packages, p.PkgPath)
-		in := &instr{pkg: p, fset: p.Fset, info: p.TypesInfo, modPath: modPath}
+		in := &instr{pkg: p, fset: p.Fset, info: p.TypesInfo, modPath: modPath, handledVars: map[string]bool{}}
 		for i, f := range p.Syntax {
 			name := p.CompiledGoFiles[i]
 			if !strings.HasPrefix(name, abs) {
 				continue
 			}
+			resetFn := in.fileReset(f, len(in.resetFuncs))
 			in.file(f)
 			f.Comments = nil
 			var buf bytes.Buffer
@@ -107,6 +108,7 @@ func main() {
 				fmt.Fprintln(os.Stderr, "instrument: print:", name, err)
 				os.Exit(2)
 			}
+			buf.WriteString(resetFn)
 			if err := os.WriteFile(name, buf.Bytes(), 0o644); err != nil {
 				fmt.Fprintln(os.Stderr, err)
 				os.Exit(2)
@@ -158,6 +160,8 @@ type instr struct {
 	used    bool
 
 	wasChanRange map[*ast.RangeStmt]bool
+	resetFuncs   []string
+	handledVars  map[string]bool
 }
 
 func sel(name string) ast.Expr {
@@ -898,6 +902,51 @@ func (in *instr) selectStmt(c *astutil.Cursor, n *ast.SelectStmt) {
 	c.Replace(&ast.BlockStmt{List: pre})
 }
 
+// fileReset returns the source of a function, appended to the rewritten file,
+// that re-evaluates the initialiser of every package-level variable declared in
+// the file (printed from the ORIGINAL syntax, so it uses the file's own import
+// names and contains no instrumentation).  Re-running initialisers puts lazily
+// filled caches and registries back into their cold, first-use state.
+func (in *instr) fileReset(f *ast.File, idx int) string {
+	var stmts []string
+	for _, d := range f.Decls {
+		gd, ok := d.(*ast.GenDecl)
+		if !ok || gd.Tok != token.VAR {
+			continue
+		}
+		for _, sp := range gd.Specs {
+			vs := sp.(*ast.ValueSpec)
+			if len(vs.Values) != len(vs.Names) {
+				continue
+			}
+			for i, name := range vs.Names {
+				if name.Name == "_" {
+					continue
+				}
+				obj, _ := in.info.Defs[name].(*types.Var)
+				if obj == nil || isSyncType(obj.Type()) {
+					continue
+				}
+				if _, isFunc := obj.Type().Underlying().(*types.Signature); isFunc {
+					continue
+				}
+				var eb bytes.Buffer
+				if err := format.Node(&eb, in.fset, vs.Values[i]); err != nil {
+					continue
+				}
+				stmts = append(stmts, fmt.Sprintf("\t%s = %s\n", name.Name, eb.String()))
+				in.handledVars[name.Name] = true
+			}
+		}
+	}
+	if len(stmts) == 0 {
+		return ""
+	}
+	fn := fmt.Sprintf("simResetFile%d", idx)
+	in.resetFuncs = append(in.resetFuncs, fn)
+	return "\nfunc " + fn + "() {\n" + strings.Join(stmts, "") + "}\n"
+}
+
 // writeReset generates SimReset(), which puts the package-level state of the
 // package back into its initial condition so that every simulated run starts
 // from first use.
@@ -915,7 +964,7 @@ func (in *instr) writeReset(dir string) {
 			for _, sp := range gd.Specs {
 				vs := sp.(*ast.ValueSpec)
 				for i, name := range vs.Names {
-					if name.Name == "_" {
+					if name.Name == "_" || in.handledVars[name.Name] {
 						continue
 					}
 					obj, _ := in.info.Defs[name].(*types.Var)
@@ -971,6 +1020,9 @@ func (in *instr) writeReset(dir string) {
 	b.WriteString("// SimReset restores the package-level state to its initial condition.\nfunc SimReset() {\n")
 	for _, s := range stmts {
 		b.WriteString("\t" + s + "\n")
+	}
+	for _, fn := range in.resetFuncs {
+		b.WriteString("\t" + fn + "()\n")
 	}
 	b.WriteString("}\n")
 	os.WriteFile(filepath.Join(dir, "zz_simreset.go"), []byte(b.String()), 0o644)
